@@ -107,6 +107,8 @@ impl Database {
             if self.handle_set(&plan)? {
                 continue;
             }
+            #[cfg(risinglight_verif)]
+            crate::verif::yield_point("stmt.bound", &[]).await;
             if !self.config.lock().unwrap().disable_optimizer {
                 plan = optimizer.optimize(plan);
             }
@@ -119,6 +121,8 @@ impl Database {
                 }
             };
             let output = executor.try_collect().await?;
+            #[cfg(risinglight_verif)]
+            crate::verif::yield_point("stmt.done", &[]).await;
             let mut chunk = Chunk::new(output);
             chunk = bind_header(chunk, &stmt);
             outputs.push(chunk);
@@ -193,6 +197,12 @@ impl Database {
             },
             _ => Ok(false),
         }
+    }
+
+    /// The storage behind this database.
+    #[cfg(risinglight_verif)]
+    pub fn verif_storage(&self) -> StorageImpl {
+        self.storage.clone()
     }
 
     /// Return all available pragma options.
